@@ -97,14 +97,14 @@ CHECKS = {
     },
     "C07": {
         "level": "model_checking",
-        "technique": "explicit-state bounded model checking: cursors opened at any point of a history and held across every sequence of writes, flushes, compactions, GCs and verifier passes, compared with the model at open time, with the skiplist allocation registry on",
+        "technique": "explicit-state bounded model checking (cursors held across every event sequence <= d, compared with the model at open time) plus stateless model checking under loom of a cursor walk racing writer / flush / compaction threads, skiplist allocation registry on",
         "design_ref": "DESIGN.md 4 (C07)",
         "jobs": {
-            "quick": [seq("C07", 4)],
-            "thorough": [seq("C07", 5), seq("C07", 4, "A-min,D-stall12,F-anygc,H-mem64-mand1")],
+            "quick": [seq("C07", 4), {"ws": "loomh", "bin": "loom_kvs", "args": ["--prop", "C07"], "timeout": 1200}],
+            "thorough": [seq("C07", 5), seq("C07", 4, "A-min,D-stall12,F-anygc,H-mem64-mand1"), {"ws": "loomh", "bin": "loom_kvs", "args": ["--prop", "C07"], "timeout": 10000}],
         },
         "text": "The alphabet adds 'open a scan and keep it' (two bound pairs) and cursor movements on kept cursors (next, prev, seek) to writes, flush, compaction, compact-until-idle and verifier passes; every sequence of <= d steps is run; each kept cursor must show exactly what a vector cursor over the model AT OPEN TIME shows, every movement must return Ok, nothing may panic, and no released skiplist node may be dereferenced (allocation registry).",
-        "note": "Sequential interleavings only (events happen between cursor calls, not inside them); the SST cache is off in row A so that a cached table cannot mask a retired file.",
+        "note": "seq_store: events happen between cursor calls; the SST cache is off in row A so that a cached table cannot mask a retired file. loom_kvs C07: the main thread opens a scan over a snapshot that spans an SST and the memtable and walks it forward and backward while other threads put/delete, run a flush-loop iteration and compaction-loop iterations (4 harnesses, preemption bounds 1-3 completed): every walk must equal the state at open, every call must succeed, and the allocation registry must see no released skiplist node dereferenced.",
     },
     "C08": {
         "level": "model_checking",
